@@ -282,6 +282,10 @@ def random_options(rnd, scale="country", overrides=True):
             o["RATIO_STOCKS_UNTOUCHED"] = round(rnd.choice([0, 1, rnd.random()]), 3)
         if rnd.random() < 0.2:
             o["CROP_PRODUCTION_MULTIPLIER"] = round(rnd.choice([0.1, 0.5, 1, 2, rnd.uniform(0, 3)]), 3)
+        if scale == "country" and rnd.random() < 0.25:
+            o["kg_meat_per_large_animal"] = rnd.choice([200, 350.5, 269.7, 120])
+        if scale == "country" and rnd.random() < 0.15:
+            o[rnd.choice(["milk_cattle_head", "meat_cattle_head", "chicken_head", "pig_head", "meat_sheep_head"])] = rnd.choice([0, 1000, 250000, 5000000])
         if rnd.random() < 0.2:
             o["GRASSES_PRODUCTION_MULTIPLIER"] = round(rnd.choice([0, 0.5, 1, 2, rnd.uniform(0, 3)]), 3)
     return o
@@ -322,7 +326,13 @@ def pipeline_grid(tier, seed, n_random_quick=24, n_random_thorough=200, per_row_
         hk = rotate(hostile, seed * 5)
         for i, row in enumerate(rows_c):
             for j in range(per_row_quick):
-                cases.append(pipeline_case(hk[(i * per_row_quick + j) % len(hk)], row, "pairwise%d" % i))
+                r2 = row
+                if (i + j) % 4 == 0:  # the documented numeric overrides ride along on a quarter of the rows
+                    r2 = dict(row, kg_meat_per_large_animal=[200, 350.5, 120][(i // 4) % 3])
+                elif (i + j) % 4 == 2 and i % 3 == 0:
+                    r2 = dict(row)
+                    r2[["milk_cattle_head", "chicken_head", "meat_sheep_head", "pig_head"][(i // 3) % 4]] = [1000, 250000, 5000000][(i // 6) % 3]
+                cases.append(pipeline_case(hk[(i * per_row_quick + j) % len(hk)], r2, "pairwise%d" % i))
         for i, row in enumerate(rows_g[::4]):
             cases.append(pipeline_case("WOR", row, "pairwiseG%d" % i))
         for i, (name, o) in enumerate(pres):
@@ -335,8 +345,11 @@ def pipeline_grid(tier, seed, n_random_quick=24, n_random_thorough=200, per_row_
     else:
         for i, row in enumerate(rows_c):
             sel = set(hostile[:12]) | set(rnd.sample(isos, 20))
-            for iso in sorted(sel):
-                cases.append(pipeline_case(iso, row, "pairwise%d" % i))
+            for k2, iso in enumerate(sorted(sel)):
+                r2 = row
+                if (i + k2) % 5 == 0:
+                    r2 = dict(row, kg_meat_per_large_animal=[200, 350.5, 120][(i + k2) % 3])
+                cases.append(pipeline_case(iso, r2, "pairwise%d" % i))
         for i, row in enumerate(rows_g):
             cases.append(pipeline_case("WOR", row, "pairwiseG%d" % i))
         for name, o in pres:
